@@ -1,7 +1,7 @@
 (** C10: a rejection by INSERT ... VALUES is justified ([rejecting_is_sound]): when the executor
     answers ConstraintViolation, appending the rows would indeed violate a declared constraint.
     The same statement is false for UPDATE (each new row is validated against the table as it
-    was BEFORE the statement) and for keys declared out of column order: witnesses. *)
+    was BEFORE the statement): witness. *)
 From Coq Require Import List ZArith Bool Arith Lia Permutation.
 From VibeSQL Require Import Store.Table Store.UserIndex Store.Constraints Store.Dml
      Store.TableLaws Store.UserIndexLaws Store.Invariant Store.DmlLaws Store.InsertLaws
@@ -74,7 +74,7 @@ Proof.
 Qed.
 
 Lemma rv_reject t :
-  TInv t -> keys_in_col_order (t_sch t) = true ->
+  TInv t ->
   forall rows done bpk buq,
     (forall cols, s_pk (t_sch t) = Some cols -> bpk = somes (pk_kf cols) done) ->
     (forall j cols, nth_error (s_uniqs (t_sch t)) j = Some cols -> nth j buq [] = somes (uq_kf cols) done) ->
@@ -82,8 +82,7 @@ Lemma rv_reject t :
     rv_validate_all t bpk buq rows = false ->
     ~ constraints_hold (set_rows t (t_rows t ++ done ++ rows)).
 Proof.
-  intros HI Hord. pose proof HI as [[Hwf Hincl] [[Hnn [Hpk [Huq [Hck Hui]]]] [[Hhp Hhu] Hu]]].
-  unfold keys_in_col_order in Hord. apply andb_true_iff in Hord. destruct Hord as [Hopk Houq].
+  intros HI. pose proof HI as [[Hwf Hincl] [[Hnn [Hpk [Huq [Hck Hui]]]] [[Hhp Hhu] Hu]]].
   induction rows as [|r rows IH]; intros done bpk buq Bpk Buq Blen Hv; [discriminate|].
   cbn [rv_validate_all] in Hv.
   destruct (rv_validate t bpk buq r) as [v|] eqn:Ev.
@@ -92,16 +91,16 @@ Proof.
     replace (t_rows t ++ done ++ r :: rows) with (t_rows t ++ (done ++ [r]) ++ rows)
       by (rewrite <- !app_assoc; reflexivity).
     apply (IH (done ++ [r]) (batch_pk_push bpk v) (batch_uq_push buq (v_uq v))); [| | |exact Hv].
-    + intros cols Ec. unfold batch_pk_push. rewrite Hvp, Ec. rewrite Ec in Hopk.
-      rewrite rv_key_in_order by exact Hopk. rewrite somes_app, (Bpk cols Ec). reflexivity.
+    + intros cols Ec. unfold batch_pk_push. rewrite Hvp, Ec.
+      rewrite rv_key_in_order. rewrite somes_app, (Bpk cols Ec). reflexivity.
     + intros j cols Ej. rewrite batch_uq_push_nth by (rewrite Hvu, map_length; exact Blen).
-      rewrite Hvu. erewrite map_nth_error by exact Ej. rewrite forallb_forall in Houq.
-      rewrite rv_key_in_order by (apply Houq; eapply nth_error_In; eauto).
+      rewrite Hvu. erewrite map_nth_error by exact Ej.
+      rewrite rv_key_in_order.
       rewrite somes_app, (Buq j cols Ej). cbn [somes flat_map]. unfold nonnull_key, uq_kf.
       destruct (has_null (proj cols r)); cbn; [rewrite app_nil_r|]; reflexivity.
     + rewrite batch_uq_push_length. exact Blen.
   - (* this row is rejected: exhibit the violated constraint *)
-    clear IH Hv. intros [Cnn [Cpk [Cuq [Cck _]]]]. simp_tab.
+    clear IH Hv. intros [Cnn [Cpk [Cuq [Cck Cui]]]]. simp_tab.
     unfold rv_validate in Ev.
     destruct (negb (notnull_ok (s_notnull (t_sch t)) r)) eqn:E1.
     { apply negb_true_iff in E1. rewrite Forall_forall in Cnn.
@@ -109,7 +108,7 @@ Proof.
     match type of Ev with (if ?c then _ else _) = _ => destruct c eqn:E2 end.
     { (* PRIMARY KEY *)
       destruct (s_pk (t_sch t)) as [cols|] eqn:Ec; [|discriminate].
-      rewrite rv_key_in_order in E2 by exact Hopk.
+      rewrite rv_key_in_order in E2.
       unfold pk_rebuild in Hhp. rewrite Ec in Hhp.
       destruct (t_pkidx t) as [m|] eqn:Em; cbn in Hhp; [|contradiction].
       specialize (Cpk cols eq_refl). apply uniq_on_NoDup in Cpk.
@@ -123,8 +122,8 @@ Proof.
       apply negb_true_iff in E3. apply rv_unique_ok_false in E3. destruct E3 as [j [k [Hj Hd]]].
       destruct (nth_error (s_uniqs (t_sch t)) j) as [cols|] eqn:Ej.
       2:{ rewrite nth_error_map in Hj. rewrite Ej in Hj. discriminate. }
-      rewrite (map_nth_error _ _ _ Ej) in Hj. rewrite forallb_forall in Houq.
-      rewrite rv_key_in_order in Hj by (apply Houq; eapply nth_error_In; eauto).
+      rewrite (map_nth_error _ _ _ Ej) in Hj.
+      rewrite rv_key_in_order in Hj.
       assert (Hk : uq_kf cols r = Some k) by (inversion Hj; reflexivity).
       unfold uq_rebuild in Hhu.
       assert (Hj' : nth_error (map (fun cols => h_rebuild (uq_kf cols) (t_rows t)) (s_uniqs (t_sch t))) j
@@ -144,21 +143,27 @@ Proof.
       apply negb_true_iff in E4. apply (checks_ok_incl _ _ _ Hincl) in E4.
       rewrite Forall_forall in Cck. rewrite (Cck r) in E4; [discriminate|].
       apply in_or_app; right. apply in_or_app; right. left; reflexivity. }
-    cbn in Ev. discriminate.
+    match type of Ev with (if ?c then _ else _) = _ => destruct c eqn:E5 end; [|discriminate].
+    { (* UNIQUE index *)
+      unfold exec_unique_index_probe in E5. apply (TInv_unique_check t r HI) in E5.
+      destruct E5 as [u [k [Hin [Hq [Hk Hs]]]]].
+      rewrite Forall_forall in Cui. specialize (Cui u Hin Hq). apply uniq_on_NoDup in Cui.
+      rewrite app_assoc in Cui. revert Cui. apply somes_dup_app with (k := k); [|exact Hk].
+      rewrite somes_app. apply in_or_app. left. exact Hs. }
 Qed.
 
 Theorem rejecting_is_sound_thm d ti t rows :
-  Inv d -> nth_error (d_tabs d) ti = Some t -> keys_in_col_order (t_sch t) = true ->
+  Inv d -> nth_error (d_tabs d) ti = Some t ->
   snd (step d (SInsert ti rows)) = RErrConstraint ->
   ~ constraints_hold (set_rows t (t_rows t ++ rows)).
 Proof.
-  intros HI Ht Hord Hr. cbn [step] in Hr. rewrite Ht in Hr.
+  intros HI Ht Hr. cbn [step] in Hr. rewrite Ht in Hr.
   destruct (do_insert_values t rows) as [[t' r] ins] eqn:Ed. cbn in Hr. subst r.
   unfold do_insert_values in Ed.
   destruct (negb (forallb (fun r => length r =? s_ncols (t_sch t)) rows)); [inversion Ed|].
   destruct (negb (rv_validate_all t [] (map (fun _ => []) (s_uniqs (t_sch t))) rows)) eqn:Ev.
   - apply negb_true_iff in Ev. pose proof (Inv_tab _ _ _ HI Ht) as HT.
-    apply (rv_reject t HT Hord rows [] [] (map (fun _ => []) (s_uniqs (t_sch t)))); auto.
+    apply (rv_reject t HT rows [] [] (map (fun _ => []) (s_uniqs (t_sch t)))); auto.
     + intros j cols Ej. cbn. clear -Ej. revert j Ej. induction (s_uniqs (t_sch t)); intros [|j] Ej; cbn in *; try discriminate; auto.
     + apply map_length.
   - destruct rows as [|r0 [|r1 rows]].
@@ -194,21 +199,23 @@ Proof.
   apply constraints_holdb_sound. vm_compute. reflexivity.
 Qed.
 
-(** PRIMARY KEY (c1, c0) holding (1,2,_): INSERT (2,1,_) -- key (1,2), distinct from (2,1) -- is rejected *)
-Lemma column_order_rejection_unsound :
-  exists d t rows,
-    Inv d /\ nth_error (d_tabs d) 0 = Some t
-    /\ snd (step d (SInsert 0 rows)) = RErrConstraint
-    /\ constraints_hold (set_rows t (t_rows t ++ rows)).
+(** Repaired (was the class composite-key-validated-in-column-order): with PRIMARY KEY (c1, c0)
+    holding (1,2,_), INSERT (2,1,_) -- key (1,2), distinct from (2,1) -- is now accepted, and a
+    second (1,2,_) is now rejected; both were the other way round when RowValidator probed the
+    map with the key in column order. *)
+Lemma column_order_now_sound :
+  exists d,
+    Inv d
+    /\ map t_rows (d_tabs d) = [[[Some 1; Some 2; Some 0]]]
+    /\ map (fun t => s_pk (t_sch t)) (d_tabs d) = [Some [1%nat; 0%nat]]
+    /\ snd (step d (SInsert 0 [[Some 2; Some 1; Some 0]])) = ROk 1
+    /\ snd (step d (SInsert 0 [[Some 1; Some 2; Some 1]])) = RErrConstraint.
 Proof.
   set (sch := mk_schema 3 [false; false; false] None [] []).
   set (ss := [SInsert 0 [[Some 1; Some 2; Some 0]]; SAddPk 0 [1%nat; 0%nat]]).
   exists (run (db_init [sch]) ss).
-  eexists. exists [[Some 2; Some 1; Some 0]].
   split; [apply inv_reachable_thm; [repeat constructor | vm_compute; reflexivity]|].
-  split; [vm_compute; reflexivity|].
-  split; [vm_compute; reflexivity|].
-  apply constraints_holdb_sound. vm_compute. reflexivity.
+  vm_compute. repeat split.
 Qed.
 
 (* ------------------------------------------------------------------------------------ *)
